@@ -40,9 +40,13 @@ def _lane_value_hook(E, m, kt, val):
     if m.base and m.base.startswith('map(st.'):
         red = fget(E, val, LS['redeemed'], TOKEN).v
         E.ctx.assume(red >= 0)
+        # channel invariant: to_send = sum of redeemed over ALL lanes, hence >= the sum over the lanes seen so far
+        tot = E.ctx.env.get('redeemed_seen', 0) + red
+        E.ctx.env['redeemed_seen'] = tot
+        E.ctx.assume(E.ctx.env['pre']['to_send'] >= tot)
 
 
-def run_update(nmerges):
+def run_update(nmerges, slim=False):
     def run(E):
         ST, LS, MG, SV, UP = _fields()
         rt, rtref = new_rt(E)
@@ -56,6 +60,17 @@ def run_update(nmerges):
         E.ctx.env['sv'] = sv
         E.ctx.env['params'] = params
         E.ctx.env['nmerges'] = nmerges
+        if slim:
+            # reduced variant for the quick tier: the gates that are independent of the merge arithmetic are fixed to
+            # their pass-through values (they are covered symbolically by the merges<=1 obligations)
+            ex = E.lazy_enum(fget(E, sv, SV['extra'], 'std::option::Option<types::ModVerifyParams>'))
+            E.ctx.assume(ex.tag == 0)
+            E.ctx.assume(models_fvm._symbytes_len(E, fget(E, sv, SV['secret_pre_image'], 'std::vec::Vec<u8>')).v == 0)
+            E.ctx.assume(fget(E, sv, SV['time_lock_max'], 'i64').v == 0)
+            E.ctx.assume(fget(E, sv, SV['time_lock_min'], 'i64').v == 0)
+            E.ctx.assume(pre['settling_at'] == 0)
+            E.ctx.assume(fget(E, sv, SV['channel_addr'], ADDR).proto == 0)
+            E.ctx.assume(addr_eq(rt.caller, pre['to']))
         fn = find_fn(E, 'fil_actor_paych', 'update_channel_state')
         r = E.run_function(fn, [rtref, params])
         return r, rt
@@ -195,12 +210,13 @@ def props_update(E, res):
             P.append(('merge %d: nonce above the merged lane nonce' % i, mn > fget(E, mv, LS['nonce'], 'u64').v))
             dup = any(implied(ctx, ml == x[0]) for x in merged)
             if dup:
-                P.append(('merge %d: a lane is merged once per voucher (set semantics)' % i, False))
+                P.append(('merge %d: a lane is merged once per voucher (set semantics) [same lane listed twice in merges]' % i, False))
             merged.append((ml, fget(E, mv, LS['redeemed'], TOKEN).v, mn, dup))
     final = rt.state
     to_send1 = fget(E, final, ST['to_send'], TOKEN).v
     delta_spec = amount - red_lane - sum(x[1] for x in merged if not x[3])
-    P.append(('amount owed changes by amount - already redeemed (lane and merged lanes)', to_send1 - pre['to_send'] == delta_spec))
+    duptag = ' [same lane listed twice in merges]' if any(x[3] for x in merged) else ''
+    P.append(('amount owed changes by amount - already redeemed (lane and merged lanes)' + duptag, to_send1 - pre['to_send'] == delta_spec))
     P.append(('amount owed non-negative', to_send1 >= 0))
     P.append(('amount owed covered by balance', to_send1 <= rt.balance))
     P.append(('voucher amount non-negative', amount >= 0))
@@ -267,16 +283,64 @@ def scenario_update(E, res, m):
         'settling_at': ev(m, pre['settling_at']), 'min_settle_height': ev(m, pre['msh']), 'lanes': lanes,
         'caller': ev(m, rt.caller.key), 'receiver': ev(m, rt.receiver.key), 'epoch': ev(m, rt.epoch),
         'balance': ev(m, z3.Int('rt.balance')),
-        'voucher': {'channel_is_id': ev(m, ch.proto) == 0, 'channel_key': ev(m, ch.key),
+        'voucher': {'channel_is_id': ev(m, ch.proto) == 0, 'channel_key': _chan_key(E, rt, ch, m),
                     'time_lock_min': g('time_lock_min', 'i64'), 'time_lock_max': g('time_lock_max', 'i64'),
                     'lane': g('lane', 'u64'), 'nonce': g('nonce', 'u64'), 'amount': g('amount', TOKEN),
                     'min_settle_height': g('min_settle_height', 'i64'), 'merges': merges,
                     'has_extra': ev(m, exn.tag) != 0,
-                    'has_secret': ev(m, models_fvm._symbytes_len(E, spi).v) != 0},
-        'sends': [{'ok': bool(s.ok), 'to': ev(m, s.to.key)} for s in rt.sends],
-        'result': exit_label(E, res),
-        'final_to_send': ev(m, zv(fget(E, rt.state, ST['to_send'], TOKEN))) if rt.state is not None else None,
+                    'extra_actor': ev(m, E.materialize(ADDR, 'sv.%d.Some.0.0' % SV['extra']).key),
+                    'extra_method': ev(m, z3.Int('sv.%d.Some.0.1' % SV['extra'])),
+                    'has_secret': ev(m, models_fvm._symbytes_len(E, spi).v) != 0,
+                    'secret_empty': ev(m, models_fvm._symbytes_len(E, fget(E, env['params'], UP['secret'], 'std::vec::Vec<u8>')).v) == 0,
+                    'secret_ok': _secret_ok(E, res, m, spi)},
+        'sends': send_script(E, rt, m, lambda i, s: {'bool': bool(ev(m, z3.Bool('rt.send[0].ret.Some.0.as<bool>')))} if i == 0 else None),
+        'predicted': _pred_update(E, res, m),
     }
+
+
+def _secret_ok(E, res, m, spi):
+    for k, h in res.ctx.memo.items():
+        if isinstance(k, tuple) and k and k[0] == 'hash':
+            kk = ('byteseq',) + tuple(sorted((h.name, spi.name)))
+            b = res.ctx.memo.get(kk)
+            if b is not None:
+                return bool(ev(m, b))
+    return True
+
+
+def _chan_key(E, rt, ch, m):
+    if ev(m, ch.proto) == 0:
+        return ev(m, ch.key)
+    for (kt, val) in rt.funcs.get('resolve', []):
+        if ev(m, kt[1]) == ev(m, ch.proto) and ev(m, kt[2]) == ev(m, ch.key) and val.vname == 'Some':
+            return ev(m, val.fields[('Some', 0)].v)
+    return 0
+
+
+def _pred_update(E, res, m):
+    ST, LS, MG, SV, UP = _fields()
+    rt = res.ctx.env['rt']
+    p = {'result': result_pred(E, res, m), 'sends': sends_pred(E, rt, m), 'deleted': False}
+    if res.kind == 'return' and is_ok(res.value):
+        st = rt.state
+        p['to_send'] = str(ev(m, zv(fget(E, st, ST['to_send'], TOKEN))))
+        p['settling_at'] = ev(m, zv(fget(E, st, ST['settling_at'], 'i64')))
+        p['min_settle_height'] = ev(m, zv(fget(E, st, ST['min_settle_height'], 'i64')))
+        fcid = fget(E, st, ST['lane_states'], CID)
+        fm = heap_get(E, fcid) if isinstance(fcid, CidV) else None
+        lanes = {}
+        if isinstance(fm, MapM):
+            for e in base_info(E, fm.base).entries if fm.base else []:
+                if e[1] is True:
+                    lanes[ev(m, e[0][1])] = e[2]
+            for (k, pres, val, _) in fm.over:
+                if pres:
+                    lanes[ev(m, k[1])] = val
+                else:
+                    lanes.pop(ev(m, k[1]), None)
+        p['lanes'] = [{'id': i, 'redeemed': str(ev(m, fget(E, v, LS['redeemed'], TOKEN).v)), 'nonce': ev(m, fget(E, v, LS['nonce'], 'u64').v)}
+                      for i, v in sorted(lanes.items())]
+    return p
 
 
 # ---------------------------------------------------------------------------------------
@@ -365,6 +429,12 @@ def build(tier):
                   '0 <= to_send <= balance, lane table updated, settle heights only extend; rejected => nothing committed',
             bounds='one call; %d merge entries; lanes table symbolic (unbounded, aliasing decided by forking); all amounts/epochs/nonces unbounded' % nm,
             max_paths=60000 if nm < 2 else 400000, scenario=scenario_update))
+    if tier == 'quick':
+        obls.append(Obligation(
+            'paych.update_channel_state[merges=2,slim]', run_update(2, slim=True), props_update,
+            descr='as above with two merge entries (same or different lanes); voucher gates independent of the merge arithmetic fixed to pass-through values',
+            bounds='one call; 2 merge entries; no extra, no secret, no time lock, channel not settling, caller = payee, ID channel address',
+            max_paths=100000, scenario=scenario_update))
     obls.append(Obligation('paych.settle', run_settle, props_settle,
                            descr='settle: parties only, once, settling_at = max(epoch + 1440, min_settle_height)',
                            bounds='one call; all state symbolic', max_paths=2000))
